@@ -12,7 +12,7 @@ Family: bounded exhaustive exploration with fault enumeration (no sampling).
               has the algorithm.  The element ledger of src/elems.hpp reports leaks, double destroys, operations on
               dead objects and byte copies of non-relocatable objects; canary bytes surround the raw destination.
   builds      memory.hpp picks a different implementation per language level, so the explorer is compiled for each of
-              -std=c++11/14/17/20.  One -std= is compiled as six translation-unit variants (-DC15_PART=0..5, one
+              -std=c++11/14/17/20.  One -std= is compiled as eight translation-unit variants (-DC15_PART=0..7, one
               element type each) only because a single unit takes minutes to compile under the sanitizers; the
               union of the parts is the whole enumeration.  thorough adds -O2 builds without UBSan for C++11/14 (what
               a user's optimised build does with the function lacking a return statement) and clang++ builds.
@@ -34,7 +34,7 @@ import vlib  # noqa: E402
 SRC = "c15/c15.cpp"
 STDS = ["c++11", "c++14", "c++17", "c++20"]
 # element type -> translation-unit variant (array types go with their element type); mirrors register_groups()
-PARTS = {"int": 0, "TC4": 1, "TCN": 2, "TR": 3, "NTR": 4, "NTRX": 5}
+PARTS = {"int": 0, "TC4": 1, "TCN": 2, "TR": 3, "NTR": 4, "NTRX": 5, "NTRXMO": 6, "TDCA": 7}
 
 # -g1: line tables for the sanitizer reports; full -g doubles the compile time of this template-heavy unit.
 SAN_FLAGS = ["-O1", "-g1", "-fsanitize=address", "-fsanitize=return,unreachable,null,alignment",
@@ -67,6 +67,8 @@ def classify(msg):
         return "crash"
     if "lifetime violation" in msg or "leak" in msg or "bitwise duplicate" in msg:
         return "lifetime"
+    if "assignment operator call" in msg:
+        return "assignment"
     if "outside [dest" in msg:
         return "overwrite"
     return "mismatch"
@@ -165,7 +167,8 @@ def run(ctx):
                  "algorithms) x source iterator kind (T*, const T*, int* into another type, vector/deque/list/"
                  "forward_list iterator, move_iterator of each) x destination kind (T*, non-pointer forward iterator "
                  "over raw storage) x element type (int, TC4 trivial, TCN trivially copyable with non-trivial default "
-                 "ctor, TR declared relocatable, NTR self-pointer, NTRX throwing move; E[2], E[2][2] for the array "
+                 "ctor, TDCA trivially default constructible but not trivial, TR declared relocatable, NTR self-pointer, NTRX "
+                 "throwing move, NTRXMO move-only with throwing move (no copying algorithm); E[2], E[2][2] for the array "
                  "forms) x length 0..max_length x fault index k=0..E with E measured on the fault-free run.  One "
                  "evaluation = one (build, case) executed in the amc world and compared with the reference world "
                  "(and the std world where available).  distinct_nontrivial counts the evaluations with length > 0; "
@@ -183,7 +186,8 @@ def run(ctx):
         "array forms exist per language level as found by compiling them: construct_at(E(*)[N], E(&&)[N]) and its const "
         "copying twin in C++11/14/17 (nested arrays C++11/14 only; the copying twin does not compile for trivially "
         "copyable E), construct_at(E(*)[N]) in C++20 only, destroy_at(E(*)[N]) in C++11/14/20",
-        "not compared: number of constructor calls, bytes of destroyed slots, value of default-initialised trivial types",
+        "not compared: number of constructor calls, bytes of destroyed slots, value of default-initialised trivial types; "
+        "the number of assignment-operator calls IS observed and must be 0 (every destination is raw storage)",
     ]
     return ctx.finish("fault_enumeration", coverage, assumptions)
 
